@@ -121,6 +121,12 @@ def cases(seed=0, thorough=False):
         add("def mk_%d():\n    def tag_%d(e):\n        return e.mi_tag(\"\"\"run\n%s\"\"\") + %s\n    return tag_%d\nr = ds.Select(mk_%d())" % (a, a, cont, body(a, "e"), a, a),
             # {S}: the string constant is read from the passed function's code object (the enclosing context indents the file text)
             ["lambda e: e.mi_tag({S}) + %s" % body(a, "e")], False, "O7 one-line def with a multi-line string, defined at an indented level")
+    # a lambda that ends its assignment statement (nothing stops the scan for its end), the next line starting with a bracket
+    a = nb()
+    add("sq_%d = lambda x: %s\n(lo_%d, hi_%d), nb_%d = (0, 10), 3\nr = ds.Select(lambda e: sq_%d(e.o_b))" % (a, body(a, "x"), a, a, a, a),
+        ["lambda e: sq_%d(e.o_b)" % a], False, "O11 helper lambda ends its statement, next line starts with a bracket")
+    out[-1]["truths"] = ["lambda e: %s" % body(a, "e.o_b")]
+    out[-1]["as_written_ok"] = True      # a helper that cannot be recovered may stay a call by name (C05): the lambda as written is then the right record
     # a one-line function under a decorator that uses functools.wraps: what is passed is the wrapper, not the text inspect finds
     a = nb()
     add("def deco_%d(fn):\n    @functools.wraps(fn)\n    def scaled(x):\n        return fn(x) + 1000\n    return scaled\n@deco_%d\ndef pt_%d(x):\n    return %s\nr = ds.Select(pt_%d)" % (a, a, a, body(a, "x"), a),
